@@ -168,7 +168,8 @@ class Ctx:
                               for c, p in self.progs.items()},
                 known_findings_reported=known_hits,
                 normalisation={c: dict(inlined={h: sorted(set(cs)) for h, cs in sorted(getattr(p, "inlined", {}).items())},
-                                       renamed=getattr(p, "renamed", {})) for c, p in self.progs.items()},
+                                       renamed=getattr(p, "renamed", {}), desugared=getattr(p, "desugared", {}))
+                               for c, p in self.progs.items()},
                 notes=self.notes,
             ),
             assumptions=self.assumptions + ([level_note] if level_note else []),
